@@ -1,0 +1,11 @@
+// Copyright (c) 2025, Peter Ohler, All rights reserved.
+
+package gi
+
+import "github.com/ohler55/slip"
+
+// octetsOf coerces arg to octets. nil, the empty sequence, gives no bytes.
+func octetsOf(arg slip.Object) []byte {
+	octs, _ := slip.CoerceToOctets(arg).(slip.Octets)
+	return octs
+}
